@@ -464,8 +464,9 @@ def write_replay(prop: str, seed: int, trace: Dict[str, Any], failure: Dict[str,
         path = os.path.join(d, f"{prop}-{seed}-{n}.json")
     _REPLAYS_WRITTEN.add(path)
     with open(path, "w") as f:
+        # (no sort_keys: the order of keys inside documents / bindings is part of the trace)
         json.dump({"property": prop, "seed": seed, "trace": trace, "failure": failure}, f,
-                  indent=1, sort_keys=True, default=_json_default)
+                  indent=1, default=_json_default)
     return path
 
 
